@@ -137,4 +137,14 @@ def linearProblems (b : Body) : List String :=
         else acc) []
   declProbs ++ paramProbs
 
+/-! ### the read-counter protocol (`GlobalVar.il_read` / `PureExec.il_read` / `Parameter.il_read`) -/
+
+/-- The text produced by the `k`-th read (0-based) of a non-inlined shared node `x`
+    (`GlobalVar.il_read`: `reads < 1` → the variable, else `DUP(variable)`). -/
+def readText (x : String) (k : Nat) : Term := if k < 1 then .id x else .app "DUP" [.id x]
+
+/-- The texts of `n` successive reads. -/
+def readsOf (x : String) (n : Nat) : List Term := (List.range n).map (readText x)
+
+
 end Rzil
